@@ -336,6 +336,19 @@ func (e *env) sigAlts(pre types.V2FileContract, expected func() (types.V2FileCon
 	}
 }
 
+// foreignTransportMuts: the same exchange over a transport whose peer key is not the contract's
+// host key.  A signature of the contract's host key must still be accepted (the revision is
+// enforceable on chain under that key only) and one made with the transport's key must not.
+func (e *env) foreignTransportMuts(msg int, sig func(out []rhpc.Msg) *types.Signature, expected func(out []rhpc.Msg) (types.V2FileContract, bool)) []mutation {
+	return []mutation{
+		{msg: msg, field: "transport", kind: "foreign-peer-key-contract-key-signs", apply: func([]rhpc.Msg) {}},
+		{msg: msg, field: "HostSignature", kind: "foreign-peer-key-signs", apply: func(out []rhpc.Msg) {
+			fc, _ := expected(out)
+			*sig(out) = e.signAs(e.otherKey, fc)
+		}},
+	}
+}
+
 func normalizeDesc(idx []uint64) []uint64 {
 	out := slices.Clone(idx)
 	slices.Sort(out)
@@ -520,6 +533,7 @@ func (e *env) appendScenario(roots []types.Hash256) *scenario {
 		return &out[3].Obj.(*proto4.RPCAppendSectorsThirdResponse).HostSignature
 	}
 	sc.muts = append(sc.muts, sigMuts(3, "HostSignature", sig, e.sigAlts(pre.Revision, func() (types.V2FileContract, bool) { return expected(sc.honest) }))...)
+	sc.muts = append(sc.muts, e.foreignTransportMuts(3, sig, expected)...)
 	sc.muts = append(sc.muts, msgMuts(3, sc.steps)...)
 	return sc
 }
@@ -564,7 +578,33 @@ func (e *env) freeScenarioOn(pre rhp4.ContractRevision, preRoots []types.Hash256
 		fc, _, err := proto4.ReviseForFreeSectors(pre.Revision, e.prices, r.NewMerkleRoot, len(idx))
 		return fc, err == nil
 	}
+	wire := func(got []rhpc.Msg) []uint64 {
+		if len(got) > 0 && got[0].Obj != nil {
+			return got[0].Obj.(*proto4.RPCFreeSectorsRequest).Indices
+		}
+		return nil
+	}
 	sc.finish = func(out []rhpc.Msg, i int, got []rhpc.Msg) *rhpc.Msg {
+		if i == 1 && sc.literalHost {
+			// execute exactly the list on the wire, duplicates and all
+			lit := wire(got)
+			var msg *rhpc.Msg
+			safeBool(func() bool {
+				if len(lit) == 0 || len(lit) > len(preRoots) {
+					return false
+				}
+				for _, n := range lit {
+					if n >= uint64(len(preRoots)) {
+						return false
+					}
+				}
+				r := &proto4.RPCFreeSectorsResponse{NewMerkleRoot: proto4.MetaRoot(applyFree(preRoots, lit))}
+				r.OldSubtreeHashes, r.OldLeafHashes = proto4.BuildFreeSectorsProof(preRoots, lit)
+				msg = &rhpc.Msg{Obj: r}
+				return true
+			})
+			return msg
+		}
 		if i != 3 {
 			return nil
 		}
@@ -572,8 +612,8 @@ func (e *env) freeScenarioOn(pre rhp4.ContractRevision, preRoots []types.Hash256
 		// a greedy host countersigns a dearer revision if that is what the renter signed
 		if r, ok := out[1].Obj.(*proto4.RPCFreeSectorsResponse); ok && len(got) > 2 && got[2].Obj != nil {
 			rs := got[2].Obj.(*proto4.RPCFreeSectorsSecondResponse).RenterSignature
-			for _, k := range []int{len(idx) + 1, len(indices), len(indices) + 1} {
-				if uint64(k) <= numSectors {
+			for _, k := range []int{len(idx) + 1, len(indices), len(indices) + 1, len(wire(got))} {
+				if k > 0 && uint64(k) <= numSectors {
 					if alt, _, err := proto4.ReviseForFreeSectors(pre.Revision, e.prices, r.NewMerkleRoot, k); err == nil && e.renterKey.PublicKey().VerifyHash(e.cs.ContractSigHash(alt), rs) {
 						fc = alt
 					}
@@ -656,6 +696,7 @@ func (e *env) freeScenarioOn(pre rhp4.ContractRevision, preRoots []types.Hash256
 		return &out[3].Obj.(*proto4.RPCFreeSectorsThirdResponse).HostSignature
 	}
 	sc.muts = append(sc.muts, sigMuts(3, "HostSignature", sig, e.sigAlts(pre.Revision, func() (types.V2FileContract, bool) { return expected(sc.honest) }))...)
+	sc.muts = append(sc.muts, e.foreignTransportMuts(3, sig, expected)...)
 	sc.muts = append(sc.muts, msgMuts(3, sc.steps)...)
 	return sc
 }
@@ -727,6 +768,7 @@ func (e *env) rootsScenario(off, n uint64) *scenario {
 	}
 	sig := func(out []rhpc.Msg) *types.Signature { return &resp(out).HostSignature }
 	sc.muts = append(sc.muts, sigMuts(1, "HostSignature", sig, e.sigAlts(pre.Revision, func() (types.V2FileContract, bool) { return fcExp, errExp == nil }))...)
+	sc.muts = append(sc.muts, e.foreignTransportMuts(1, sig, func([]rhpc.Msg) (types.V2FileContract, bool) { return fcExp, errExp == nil })...)
 	sc.muts = append(sc.muts, msgMuts(1, sc.steps)...)
 	return sc
 }
@@ -794,6 +836,7 @@ func (e *env) fundScenario(deposits []proto4.AccountDeposit) *scenario {
 	)
 	sig := func(out []rhpc.Msg) *types.Signature { return &resp(out).HostSignature }
 	sc.muts = append(sc.muts, sigMuts(1, "HostSignature", sig, e.sigAlts(pre.Revision, func() (types.V2FileContract, bool) { return fcExp, errExp == nil }))...)
+	sc.muts = append(sc.muts, e.foreignTransportMuts(1, sig, func([]rhpc.Msg) (types.V2FileContract, bool) { return fcExp, errExp == nil })...)
 	sc.muts = append(sc.muts, msgMuts(1, sc.steps)...)
 	return sc
 }
@@ -935,6 +978,7 @@ func (e *env) replenishScenario(pools bool, accounts []proto4.Account, target ty
 		return &out[3].Obj.(*proto4.RPCReplenishAccountsThirdResponse).HostSignature
 	}
 	sc.muts = append(sc.muts, sigMuts(3, "HostSignature", sig, e.sigAlts(pre.Revision, func() (types.V2FileContract, bool) { return expected(sc.honest) }))...)
+	sc.muts = append(sc.muts, e.foreignTransportMuts(3, sig, expected)...)
 	sc.muts = append(sc.muts, msgMuts(3, sc.steps)...)
 	return sc
 }
@@ -1015,4 +1059,47 @@ func (e *env) freeSubstitutionSweep(maxN, maxK, sampleRejected int) {
 	e.r.Extra("free_substitution_pairs", pairs)
 	e.r.Extra("free_substitution_pairs_core_verifier_accepts", accepted)
 	e.r.Extra("free_substitution_cases_run_through_client", ran)
+}
+
+// ---- every index sequence through the real client against a literal host -------------------
+// The client's normalisation (sort descending, drop duplicates) is what makes a free request
+// mean "remove this SET of sectors".  For every contract size n <= maxN and every index sequence
+// over [0,n) up to length maxLen — all orders, all repetitions, adjacent or not — the real client
+// talks to a host that executes the list exactly as it arrives (an honest host would reject a
+// duplicate) and countersigns whatever revision the renter signed.  Oracle: the result is the
+// swap-remove of the DISTINCT requested indices on the renter's previous roots.
+func (e *env) freeSequenceSweep(maxN, maxLen int) {
+	ran := 0
+	for n := 2; n <= maxN; n++ {
+		roots := make([]types.Hash256, n)
+		for i := range roots {
+			roots[i] = types.Hash256{byte(i + 1), byte(n), 0x5e}
+		}
+		pre := e.contract
+		pre.Revision.Filesize, pre.Revision.Capacity = uint64(n)*proto4.SectorSize, uint64(n)*proto4.SectorSize
+		pre.Revision.FileMerkleRoot = proto4.MetaRoot(roots)
+		pre.Revision.RenterSignature = e.signAs(e.renterKey, pre.Revision)
+		pre.Revision.HostSignature = e.signAs(e.h.Key, pre.Revision)
+		var rec func(seq []uint64)
+		rec = func(seq []uint64) {
+			if len(seq) > 0 {
+				distinct := len(normalizeDesc(seq))
+				// sequences without a repetition are covered by the scenarios above; keep a few
+				if distinct < len(seq) || e.rng.Intn(6) == 0 {
+					sc := e.freeScenarioOn(pre, roots, slices.Clone(seq), false)
+					sc.rpc, sc.name, sc.literalHost = "free-sequences", fmt.Sprintf("n%d_%v", n, seq), true
+					e.runCase(sc, nil)
+					ran++
+				}
+			}
+			if len(seq) == maxLen || len(seq) == n {
+				return
+			}
+			for i := 0; i < n; i++ {
+				rec(append(slices.Clone(seq), uint64(i)))
+			}
+		}
+		rec(nil)
+	}
+	e.r.Extra("free_index_sequences_through_client_vs_literal_host", ran)
 }
